@@ -30,6 +30,9 @@ const QSETS: &[QuerySet] = &[
     QuerySet { id: "stmtd", lang: "stmt", tags: include_str!("stmtd_tags.scm"), locals: "" },
     // doc nodes spanning several rows (block comments; NEW zoo grammar stmtb = stmt + `/* … */` extras)
     QuerySet { id: "stmtb", lang: "stmtb", tags: include_str!("stmtb_tags.scm"), locals: "" },
+    // placement of the @name node relative to the tagged node: inside / equal / in front / behind (two grammars)
+    QuerySet { id: "stmtp", lang: "stmt", tags: include_str!("stmtp_tags.scm"), locals: "" },
+    QuerySet { id: "lstp", lang: "lst", tags: include_str!("lstp_tags.scm"), locals: "" },
     // a match that arrives after later names were flushed (corpus only)
     QuerySet { id: "stmto", lang: "stmt", tags: include_str!("stmto_tags.scm"), locals: "" },
     // the same finding in a realistic shape: definition with a trailing docstring (corpus only)
@@ -746,11 +749,11 @@ fn main() {
     for k in 0..(n_stmt + n_lst) {
         let (qid, (src, class)) = if k < n_stmt {
             {
-                let q = match k % 9 { 8 => "stmt0", 4 | 6 => "stmtn", 5 => "stmtd", 7 | 2 => "stmtb", _ => "stmt" };
+                let q = match k % 9 { 8 => "stmt0", 4 => "stmtn", 6 => "stmtp", 5 => "stmtd", 7 | 2 => "stmtb", _ => "stmt" };
                 (q, gen_stmt(&mut rng, q == "stmtb"))
             }
         } else {
-            ("lst", gen_lst(&mut rng))
+            (if k % 2 == 0 { "lst" } else { "lstp" }, gen_lst(&mut rng))
         };
         if src.len() > 16384 {
             continue;
